@@ -480,6 +480,22 @@ fn shrink_generic<F>(calls: Vec<Call>, pubs: Vec<u64>, privs: Vec<u64>, prop: &s
 where
     F: Field + PrimeField64 + ExtensionField<F>,
 {
+    let prop = prop.to_string();
+    let kind = kind.to_string();
+    shrink_with::<F>(calls, pubs, privs, &move |c, pu, pr| violates::<F>(c, pu, pr, &prop, &kind))
+}
+
+/// Delta-debugging of a call list under an arbitrary failure predicate.
+pub fn shrink_with<F>(
+    calls: Vec<Call>,
+    pubs: Vec<u64>,
+    privs: Vec<u64>,
+    pred: &dyn Fn(&[Call], &[u64], &[u64]) -> bool,
+) -> (Vec<Call>, Vec<u64>, Vec<u64>)
+where
+    F: Field + PrimeField64 + ExtensionField<F>,
+{
+    let violates = |c: &[Call], pu: &[u64], pr: &[u64]| -> bool { pred(c, pu, pr) };
     // symbolic form
     let (rets, _) = rebuild::<F>(&calls);
     let mut first: std::collections::HashMap<u32, (usize, usize)> = Default::default();
@@ -557,7 +573,7 @@ where
                 continue;
             }
             keep[i] = false;
-            let ok = materialise(&keep).is_some_and(|(c, pu, pr)| violates::<F>(&c, &pu, &pr, prop, kind));
+            let ok = materialise(&keep).is_some_and(|(c, pu, pr)| violates(&c, &pu, &pr));
             if ok {
                 progress = true;
             } else {
@@ -575,7 +591,7 @@ where
                 break;
             }
             *slot = cand;
-            if violates::<F>(&c, &pu2, &pr2, prop, kind) {
+            if violates(&c, &pu2, &pr2) {
                 pu = pu2;
                 pr = pr2;
                 break;
@@ -591,7 +607,7 @@ where
                 let mut c2 = c.clone();
                 c2[i] = Call::Const(cand);
                 // constants may merge and shift ids; only accept if ids stay valid
-                let fine = catch_unwind(AssertUnwindSafe(|| violates::<F>(&c2, &pu, &pr, prop, kind))).unwrap_or(false);
+                let fine = catch_unwind(AssertUnwindSafe(|| violates(&c2, &pu, &pr))).unwrap_or(false);
                 if fine {
                     c = c2;
                     break;
@@ -621,6 +637,7 @@ pub fn shrink_main(args: &crate::Args) {
     let kind = args.str("kind", "");
     let field = v["field"].as_str().unwrap_or("bb").to_string();
     let (c, pu, pr) = match field.as_str() {
+        _ if prop == "C09" => shrink_with::<BabyBear>(calls, pu, pr, &|c, _, _| crate::c09::unbalanced_class(c).as_deref() == Some(kind.as_str())),
         "kb" => shrink_generic::<KoalaBear>(calls, pu, pr, &prop, &kind),
         "gl" => shrink_generic::<Goldilocks>(calls, pu, pr, &prop, &kind),
         _ => shrink_generic::<BabyBear>(calls, pu, pr, &prop, &kind),
